@@ -134,6 +134,19 @@ def _classes():
     return out
 
 
+def _origin(setting):
+    """Which package defines the class behind an observation prefix (gpytorch itself or the linear_operator dependency)."""
+    import linear_operator.settings as los
+
+    c = _classes().get(setting)
+    if c is None:
+        c = getattr(los, setting, None)
+    mod = getattr(c, "__module__", "") or ""
+    if setting in SPECIAL:
+        mod = getattr(_classes().get(setting), "__module__", "")
+    return "linear_operator" if mod.startswith("linear_operator") else "gpytorch"
+
+
 def catalogue_names():
     return sorted(_classes())
 
@@ -323,8 +336,16 @@ def gen_block(rng, cfg, depth):
             kinds.append(("try", 1.0 if depth < cfg["max_depth"] else 0.0))
         if cfg["libcalls"]:
             kinds.append(("lib", cfg["lib_w"]))
+        if cfg.get("slots"):
+            kinds.append(("mk", 1.2))
+            kinds.append(("withslot", 3.0 if depth < cfg["max_depth"] else 0.0))
         k = core.weighted_choice(rng, kinds)
-        if k == "with":
+        if k == "mk":
+            # c = Setting(args): an instance constructed here and entered later (possibly elsewhere, possibly twice)
+            stmts.append(["mk", rng.randrange(3), gen_item(rng, cfg["names"], cfg["bad_ctor"])])
+        elif k == "withslot":
+            stmts.append(["withslot", rng.randrange(3), gen_block(rng, cfg, depth + 1)])
+        elif k == "with":
             ni = core.weighted_choice(rng, [(1, 6), (2, 3), (3, 1)])
             items = [gen_item(rng, cfg["names"], cfg["bad_ctor"]) for _ in range(ni)]
             w = ["with", items, gen_block(rng, cfg, depth + 1)]
@@ -438,8 +459,11 @@ def generate(rng, tier, index):
         "lib_kinds": rng.sample(LIBCALLS, rng.randint(1, len(LIBCALLS))),
         "lib_fault_p": rng.choice([0.3, 0.7, 1.0]),
         "werror": rng.random() < 0.3,
+        "slots": rng.random() < 0.4,
     }
     ops = gen_block(rng, cfg, 0)
+    if cfg["slots"]:
+        ops = [["mk", j, gen_item(rng, names, False)] for j in range(rng.randint(1, 3))] + ops
     if forced is not None:
         it = gen_item(rng, [forced], cfg["bad_ctor"])
         ops = [["with", [it], ops[:2] + [["raise", "exc"]] if index % 2 else ops[:2]]] + ops[2:]
@@ -550,6 +574,8 @@ class _Interp:
         self.pos = 0  # interpreter event counter
         self.top = 0  # index of the current top-level statement
         self.active = []  # names of entered classes (for probes / cls features)
+        self.slots = {}  # slot -> (item, instance): context-manager objects constructed earlier than they are entered
+        self.via_slot = set()  # settings (observation prefixes) that were entered through such an object in this run
 
     # -- model
     def enter(self, item):
@@ -585,6 +611,8 @@ class _Interp:
                         setting=setting,
                         field=field,
                         where=where.split(":")[0],
+                        via_prebuilt_instance=setting in self.via_slot,
+                        origin=_origin(setting),
                     )
                     # re-synchronise the model so that one leak is reported once, not at every later step
                     self.O[k] = real.get(k)
@@ -647,6 +675,44 @@ class _Interp:
                 self.check("libcall_rejected")
             else:
                 self.check("libcall")
+        elif k == "mk":
+            with warnings.catch_warnings():
+                warnings.simplefilter("ignore")
+                self.slots[s[1]] = None
+                try:
+                    self.slots[s[1]] = (s[2], construct(s[2]))
+                except ValueError:
+                    self.out.stats["rejected:constructor"] += 1
+                    raise
+            self.out.stats["probe:instance_constructed_ahead"] += 1
+            self.check("constructed")
+        elif k == "withslot":
+            ent = self.slots.get(s[1])
+            if ent is None:
+                self.out.stats["skipped:empty_slot"] += 1
+                self.block(s[2])
+                return
+            item, inst = ent
+            d0 = len(self.stack)
+            why = "normal"
+            if any(nm == item[0] for _, nm in self.stack):
+                self.out.stats["probe:prebuilt_instance_entered_inside_block_of_same_class"] += 1
+            try:
+                with inst:
+                    scratch = {}
+                    apply_effect(scratch, item)
+                    self.via_slot.update(kk.rsplit(".", 1)[0] for kk in scratch)
+                    self.via_slot.add(item[0])
+                    if item[0] == "linalg_dtypes":
+                        self.via_slot.update(["_linalg_dtype_symeig", "_linalg_dtype_cholesky"])
+                    self.out.stats["fault:instance_entered_later_than_constructed"] += 1
+                    self.body([item], s[2])
+            except BaseException:
+                why = "exception"
+                raise
+            finally:
+                self.pop_to(d0, why)
+                self.check("exit_" + why)
         elif k == "with":
             items, stmts = s[1], s[2]
             d0 = len(self.stack)
@@ -687,9 +753,9 @@ def _shape(stmts):
     def rec(b, d):
         nonlocal n_with, n_nest, n_raise, n_lib
         for s in b:
-            if s[0] == "with":
+            if s[0] in ("with", "withslot"):
                 n_with += 1
-                if d > 0:
+                if d > 0 or s[0] == "withslot":
                     n_nest += 1
                 rec(s[2], d + 1)
             elif s[0] == "try":
@@ -754,6 +820,11 @@ def render(history):
             if s[0] == "with":
                 lines.append(ind + "with " + ", ".join(_fmt_item(i) for i in s[1]) + ":" + ("   # entered under warnings.simplefilter('error', DeprecationWarning)" if len(s) > 3 and s[3] else ""))
                 rec(s[2], ind + "    ")
+            elif s[0] == "mk":
+                lines.append(ind + "c%d = %s" % (s[1], _fmt_item(s[2])))
+            elif s[0] == "withslot":
+                lines.append(ind + "with c%d:   # the instance constructed earlier (skipped if c%d was never constructed)" % (s[1], s[1]))
+                rec(s[2], ind + "    ")
             elif s[0] == "try":
                 lines.append(ind + "try:")
                 rec(s[1], ind + "    ")
@@ -796,6 +867,18 @@ def simplify(history):
                     yield b[:i] + [["with", s[1], v] + s[3:]] + b[i + 1 :]
                 if s[2]:
                     yield b[:i] + [["with", s[1], []] + s[3:]] + b[i + 1 :]
+            elif s[0] == "withslot":
+                yield b[:i] + s[2] + b[i + 1 :]
+                for v in variants(s[2]):
+                    yield b[:i] + [["withslot", s[1], v]] + b[i + 1 :]
+                if s[2]:
+                    yield b[:i] + [["withslot", s[1], []]] + b[i + 1 :]
+            elif s[0] == "mk":
+                n, a = s[2]
+                for key in list(a):
+                    if key == "value":
+                        continue
+                    yield b[:i] + [["mk", s[1], [n, {k: v for k, v in a.items() if k != key}]]] + b[i + 1 :]
             elif s[0] == "try":
                 yield b[:i] + s[1] + b[i + 1 :]
                 for v in variants(s[1]):
